@@ -22,7 +22,7 @@ Oracle (statement sentence by sentence):
     target without whitespace, field names without ':'/whitespace, values without CR/LF/NUL and outer whitespace,
     Content-Length consistent) the reference parser yields the same method, target, version, field list and body.
 """
-import json, os, stat, subprocess, tempfile
+import json, os, stat, subprocess, sys, tempfile
 
 from common.check import PropertyCheck, Skip, hx, unhx
 from common.paths import WORK
@@ -48,8 +48,23 @@ PATHS = [b"/", b"/path?a=foo&a=bar&b=baz", b"/p ath", b"/it's", b"/$(id)", b"/`i
          b"/nl\nx", b"/tab\tx", b"/\xc3\xa9", b"/\xff\xfe", b"/*?[x]", b"/#frag", b"/~", b"/!bang", b"/{a,b}", b"/'\"'\"'", b"/<>", b"*", b""]
 HNAMES = [b"header", b"X-Custom", b"Accept", b"Accept-Encoding", b"accept-encoding", b"Host", b"host", b"Content-Length",
           b"content-type", b":authority", b"Cookie", b"X-'q", b"x y", b"x$(id)", b"X;id", b"User-Agent", b"x\xff"]
+# Content-Type values used by the priming history, with a Python codec that encodes the non-ASCII sample bodies
+PRIME_CTS = {"text/plain; charset=iso-8859-1": "latin-1", "text/plain; charset=latin-1": "latin-1", "text/html; charset=ISO-8859-15": "iso-8859-15",
+             "application/x-www-form-urlencoded; charset=windows-1252": "cp1252", "text/plain; charset=ascii": "utf-8",
+             "text/plain; charset=utf-8": "utf-8", "application/json": "utf-8"}
 CTYPES = [b"text/plain", b"text/plain; charset=utf-8", b"application/json", b"text/plain; charset=latin-1",
           b"text/plain; charset=utf-16", b"application/octet-stream", b"text/html; charset=bogus"]
+
+
+def worker_main():
+    """fresh-state worker: one JSON case per line in, its text classification and exports out; it never runs a history"""
+    chk = Check()
+    for line in sys.stdin:
+        try:
+            out = chk._fresh_compute(json.loads(line))
+        except Exception as e:          # reported to the parent, which treats it as a harness problem
+            out = {"error": "%s: %s" % (type(e).__name__, e)}
+        sys.stdout.write(json.dumps(out) + "\n"); sys.stdout.flush()
 
 
 def soup(rng, n, ctl=True):
@@ -91,8 +106,10 @@ class Check(PropertyCheck):
     rule = ("requests with ~60% plain and ~40% hostile material (shell metacharacters, quotes, control characters, %, "
             "backslashes, non-UTF-8 bytes; never NUL) in method, host, path, header names and values; bodies: none, text soups, "
             "binary, non-UTF-8 charsets; export_preserve_original_ip on/off with several peer addresses; each case exports ONE flow "
-            "object 2-3 times in a drawn format order (curl/httpie/raw, with repeats) - every export is judged and must leave "
-            "the flow's get_state() unchanged. distinct = distinct "
+            "object 2-3 times in a drawn format order (curl/httpie/raw, with repeats) - every export is judged, must leave "
+            "the flow's get_state() unchanged and must equal the export of an identical request computed by a worker process on "
+            "fresh state; ~45% of the cases first run a HISTORY in the checking process (other messages get .text assigned - also "
+            "text their declared charset cannot encode - or read under Content-Type values the request under test then shares). distinct = distinct "
             "request; non-trivial = at least one field contains a character outside shlex's safe set.")
     budget = {"quick": 150, "thorough": 12000}
     time_budget = {"quick": 12, "thorough": 500}
@@ -137,7 +154,7 @@ class Check(PropertyCheck):
             elif r < 0.93: body = rng.pick([b"\xff\xfe", b"\x80abc", b"caf\xe9", bytes(rng.getrandbits(8) | 1 for _ in range(6))])
             else: body = rng.pick(["é".encode("latin-1"), "hé".encode("utf-16"), b"\xff\xfe", "日本".encode("utf-8")])
             if body is not None and b"\x00" in body: body = body.replace(b"\x00", b"0")
-            yield {"method_hex": hx(method), "scheme": rng.pick(["http", "https"]), "host_hex": hx(host),
+            case = {"method_hex": hx(method), "scheme": rng.pick(["http", "https"]), "host_hex": hx(host),
                    "port": rng.pick([80, 443, 22, 8080]), "path_hex": hx(path), "headers": hdrs,
                    "content_hex": None if body is None else hx(body),
                    "version": rng.pick(["HTTP/1.1", "HTTP/1.1", "HTTP/1.0", "HTTP/2.0"]),
@@ -145,6 +162,20 @@ class Check(PropertyCheck):
                    "preserve": int(rng.chance(0.4)), "peer": rng.pick([None, "1.2.3.4", "::1", "address", "example.com"]),
                    "set_content": int(rng.chance(0.85)), "exe": int(rng.chance(0.1)),
                    "order": rng.pick(self.ORDERS)}
+            if rng.chance(0.45):
+                # a history: 1-3 other messages get .text assigned / read under Content-Type values, some of which the request
+                # under test then shares (with a body that IS valid under the declared charset)
+                cts = [rng.pick(list(PRIME_CTS)) for _ in range(rng.randint(1, 3))]
+                case["prime"] = [{"ct": ct, "op": rng.pick(["set_text", "set_text", "get_text"]), "msg": rng.pick(["req", "resp"]),
+                                  "text": rng.pick(["日本語", "é€", "plain", "\U0001f600", "ü"])} for ct in cts]
+                if rng.chance(0.7):
+                    ct = rng.pick(cts); enc = PRIME_CTS[ct]
+                    txt = rng.pick(["caf\xe9", "\xfcber \xe4", "na\xefve 50% \\n", "\xe9\n"])
+                    case["headers"] = [h for h in case["headers"] if unhx(h[0]).lower() not in (b"content-type", b"content-encoding")] \
+                        + [[hx(b"content-type"), hx(ct.encode())]]
+                    case["content_hex"] = hx(txt.encode(enc)); case["set_content"] = 1
+                    if unhx(case["method_hex"]) == b"GET" and rng.chance(0.5): case["method_hex"] = hx(b"POST")
+            yield case
 
     # ------------------------------------------------------------------ implementation
     def setup(self, tier):
@@ -252,20 +283,78 @@ class Check(PropertyCheck):
         rq.decode(strict=False)
         return rq
 
+    def _prime(self, case):
+        """messages this process handles BEFORE the export under test: `.text` assigned (also text the declared charset
+        cannot encode) or read under various Content-Type values"""
+        from mitmproxy.test import tutils
+        for pr in case.get("prime") or []:
+            m = tutils.treq(content=b"x") if pr.get("msg") != "resp" else tutils.tresp(content=b"x")
+            m.headers["content-type"] = pr["ct"]
+            try:
+                if pr["op"] == "set_text": m.text = pr["text"]
+                else:
+                    m.raw_content = pr["text"].encode("utf-8"); m.get_text(strict=False)
+            except Exception:
+                pass
+
+    def _fresh_compute(self, case):
+        """(runs in the worker) text classification and the three exports of the case's request, each on a fresh flow"""
+        from mitmproxy.addons import export
+        from mitmproxy import exceptions
+        tctx = self._ctx()
+        tctx.options.export_preserve_original_ip = bool(case["preserve"])
+        try:
+            f0 = self._flow(case)
+        except Skip:
+            return {"skip": 1}
+        rq = self._own_clean(f0); export.pop_headers(rq)
+        try:
+            t = rq.get_text(strict=True) if rq.content else None
+            text_hex = None if not rq.content else (hx(t.encode("utf-8", "surrogateescape")) if t else "empty-text")
+        except ValueError:
+            text_hex = "bin"
+        ex = {}
+        for fmt, name in (("curl", "curl"), ("httpie", "httpie"), ("raw", "raw_request")):
+            try:
+                v = export.formats[name](self._flow(case))
+                ex[fmt] = hx(v if isinstance(v, bytes) else v.encode("utf-8", "surrogateescape"))
+            except exceptions.CommandError:
+                ex[fmt] = "error"
+            except (ValueError, AssertionError) as e:
+                ex[fmt] = "error:" + type(e).__name__
+        return {"text_hex": text_hex, "exports": ex}
+
+    _worker = None
+
+    def _fresh(self, case):
+        w = Check._worker
+        if w is None or w[0] != os.getpid() or w[1].poll() is not None:
+            from common.paths import REPO
+            code = ("import sys, os; sys.path[:0] = [%r, %r]; os.chdir(%r); import c48; c48.worker_main()"
+                    % (os.path.dirname(os.path.abspath(__file__)), REPO, REPO))
+            pr = subprocess.Popen([sys.executable, "-c", code], stdin=subprocess.PIPE, stdout=subprocess.PIPE,
+                                  stderr=subprocess.DEVNULL, env=dict(os.environ))
+            Check._worker = w = (os.getpid(), pr)
+        c = {k: v for k, v in case.items() if k not in ("prime",)}
+        w[1].stdin.write((json.dumps(c) + "\n").encode()); w[1].stdin.flush()
+        line = w[1].stdout.readline()
+        if not line: raise RuntimeError("fresh-state worker died")
+        return json.loads(line)
+
     def impl(self, case):
         from mitmproxy.addons import export
         from mitmproxy import exceptions
         tctx = self._ctx()
         tctx.options.export_preserve_original_ip = bool(case["preserve"])
+        self._prime(case)              # the HISTORY: other messages handled by this process before the export under test
+        fresh = self._fresh(case)      # the same request on fresh state (a worker process that never sees any history)
+        if fresh.get("skip"): raise Skip()
         f0 = self._flow(case)          # never exported: source of the expectations / library answers
-        obs = {}
+        obs = {"fresh": fresh["exports"]}
         rq = self._own_clean(f0); export.pop_headers(rq)
-        try:
-            t = rq.get_text(strict=True) if rq.content else None
-            obs["text_hex"] = None if not rq.content else hx(t.encode("utf-8", "surrogateescape"))
-            if rq.content and not t: raise Skip()          # `assert text` in the exporter: not a text body
-        except ValueError:
-            obs["text_hex"] = "bin"
+        # is the body valid text, and which: decided on FRESH state (the history must not change what the request is)
+        obs["text_hex"] = fresh["text_hex"]
+        if fresh["text_hex"] == "empty-text": raise Skip()    # `assert text` in the exporter: not a text body
         obs["pretty_url_hex"] = hx(rq.pretty_url.encode("utf-8", "surrogateescape"))
         obs["pretty_host_hex"] = hx(rq.pretty_host.encode("utf-8", "surrogateescape"))
         obs["orig_url_hex"] = hx(f0.request.pretty_url.encode("utf-8", "surrogateescape"))
@@ -361,7 +450,13 @@ class Check(PropertyCheck):
             tag = "" if i == 0 else f" [export #{i + 1} of {'>'.join(self._order(case))} on the same flow]"
             if step["changed"]:
                 fails.append(f"{step['fmt']}: the export changed the flow (get_state before != after){tag}")
-            rnd = {k: v for k, v in obs.items() if k not in ("curl", "httpie", "raw_hex", "seq")}
+            here = step["raw_hex"] if step["fmt"] == "raw" else step["o"]["cmd_hex"]
+            there = obs["fresh"][step["fmt"]]
+            if here.split(":")[0] != there.split(":")[0]:
+                fails.append(f"{step['fmt']}: the export differs from the export of an identical request on fresh state "
+                             f"({unhx(here)[:80] if not here.startswith('error') else here!r} vs "
+                             f"{unhx(there)[:80] if not there.startswith('error') else there!r}){tag}")
+            rnd = {k: v for k, v in obs.items() if k not in ("curl", "httpie", "raw_hex", "seq", "fresh")}
             if step["fmt"] == "raw": rnd["raw_hex"] = step["raw_hex"]
             else: rnd[step["fmt"]] = step["o"]
             fails += [x + tag for x in self._oracle_one(case, rnd)]
